@@ -18,5 +18,21 @@ func init() {
 		skelTarget{Name: "c02.MonitorConfig.namespaces", File: "pkg/kube_events_manager/monitor_config.go", Recv: "MonitorConfig", Func: "namespaces",
 			Fields: []string{"NamespaceSelector", "LabelSelector", "NameSelector", "MatchNames"},
 			Calls:  []string{"uniqueStrings"}},
+		// third wave: the glue the informer count and the event delivery depend on
+		skelTarget{Name: "c02.MonitorConfig.names", File: "pkg/kube_events_manager/monitor_config.go", Recv: "MonitorConfig", Func: "names",
+			Fields: []string{"NameSelector", "MatchNames"},
+			Calls:  []string{"uniqueStrings"}},
+		skelTarget{Name: "c02.uniqueStrings", File: "pkg/kube_events_manager/monitor_config.go", Recv: "", Func: "uniqueStrings",
+			Fields: []string{},
+			Calls:  []string{"append", "make", "Compact", "Clone", "Sort", "Strings"}},
+		skelTarget{Name: "c02.FactoryStore.Start", File: "pkg/kube_events_manager/factory.go", Recv: "FactoryStore", Func: "Start",
+			Fields: []string{"data", "handlerRegistrations", "shared", "ctx", "cancel", "users"},
+			Calls:  []string{"get", "AddEventHandler", "Run", "HasSynced", "PollUntilContextCancel"}},
+		skelTarget{Name: "c02.FactoryStore.Stop", File: "pkg/kube_events_manager/factory.go", Recv: "FactoryStore", Func: "Stop",
+			Fields: []string{"data", "handlerRegistrations", "shared", "ctx", "cancel", "users"},
+			Calls:  []string{"RemoveEventHandler", "delete", "cancel", "len"}},
+		skelTarget{Name: "c02.FactoryStore.get", File: "pkg/kube_events_manager/factory.go", Recv: "FactoryStore", Func: "get",
+			Fields: []string{"data"},
+			Calls:  []string{"add", "NewFilteredDynamicSharedInformerFactory"}},
 	)
 }
